@@ -1558,6 +1558,10 @@ def subst_params(t, sub):
         return t
     out = tuple(subst_params(x, sub) if isinstance(x, tuple) else x
                 for x in t)
+    # the operands of a symmetric comparison are kept in canonical order
+    if out and out[0] == "cmp" and len(out) == 4 and out[1] in _SYMM and \
+            _key(out[3]) < _key(out[2]):
+        out = ("cmp", out[1], out[3], out[2])
     # getattr(x, "name") with a now-constant name is an attribute read
     if out and out[0] == "call" and out[1] == ("global", "getattr") and \
             len(out[2]) == 2 and not out[3] and out[2][1][0] == "const" and \
@@ -2230,3 +2234,28 @@ def facts_at(view, node):
     if isinstance(view, _Inner):
         return view.full_facts(node)
     return view.all_facts(node)
+
+
+def decide_ites(t, facts):
+    """``t`` with every conditional expression whose condition is settled by
+    ``facts`` ([(term, polarity)]) replaced by the branch taken, and empty
+    byte strings dropped from concatenations (helpers inlined after the
+    hypotheses were applied leave such conditionals behind)."""
+    if not isinstance(t, tuple) or not t:
+        return t
+    if t[0] == "const":
+        return t
+    if t[0] == "ite":
+        c, pol = norm_cond(t[1], True)
+        if (c, pol) in facts:
+            return decide_ites(t[2], facts)
+        if (c, not pol) in facts:
+            return decide_ites(t[3], facts)
+    out = tuple(decide_ites(x, facts) if isinstance(x, tuple) else x
+                for x in t)
+    if out[0] == "binop" and out[1] == "Add":
+        if out[2] == ("const", b""):
+            return out[3]
+        if out[3] == ("const", b""):
+            return out[2]
+    return out
